@@ -1189,6 +1189,41 @@ func roundTripClass(l refList) string {
 }
 
 func streamC11(r *Rand, n int, o *Out) {
+	// exhaustive: every query string over the urlencoded structural alphabet up to length 4 (thorough, first seed: 5):
+	// parsed into a list (every delimiter order, empty names / values / sequences, '+', complete and broken escapes),
+	// the list read back, sorted, and written through once
+	{
+		alphabet := []string{"a", "b", "&", "=", "+", "%", "2", "6", " ", "\xff"}
+		maxLen := 4
+		if v := os.Getenv("VERIF_EXHAUSTIVE"); v != "" {
+			fmt.Sscan(v, &maxLen)
+			if maxLen > 0 {
+				maxLen++
+			}
+		}
+		var gen func(prefix string, depth int)
+		gen = func(prefix string, depth int) {
+			if depth > 0 {
+				h := &Hist{}
+				if k := h.ParsePkg("http://h/?" + prefix); k >= 0 {
+					sp := h.Grab(k)
+					if depth <= 3 {
+						h.QSort(sp)
+						h.QAppend(sp, "z", "")
+					}
+				}
+				o.EmitHist("e", h)
+			}
+			if depth < maxLen {
+				for _, a := range alphabet {
+					gen(prefix+a, depth+1)
+				}
+			}
+		}
+		if maxLen > 0 {
+			gen("", 0)
+		}
+	}
 	for i := 0; i < n; i++ {
 		rr := r.Fork()
 		h := &Hist{}
